@@ -30,7 +30,8 @@ STD_REGISTRY = [
 # user class 5 and 7 are never registered (always leaves)
 NAMESPACES = ['', 'a', 'b', 'zz']        # 'zz' has no registrations ("unknown namespace")
 KEY_TAGS_ORDERABLE = ['vk.KO', 'vk.KP']
-KEY_TAGS_UNORDERABLE = ['vk.KU', 'vk.KV']
+# 'vk.Alpha.KZ' is a nested class: by qualified name it sorts before 'vk.KB', by bare class name after it
+KEY_TAGS_UNORDERABLE = ['vk.KU', 'vk.KV', 'vk.Alpha.KZ', 'vk.KB']
 
 
 def reg_lines(registry=STD_REGISTRY):
@@ -108,10 +109,9 @@ class Gen:
             elif style == 'unord1':
                 # at most one unorderable object per tag: stage 2 succeeds
                 pool = [rand_int, rand_str]
-                if not any(k[0] == 'o' and k[1] == 'vk.KU' for k in keys):
-                    add(self.key_obj('vk.KU', False))
-                elif not any(k[0] == 'o' and k[1] == 'vk.KV' for k in keys):
-                    add(self.key_obj('vk.KV', False))
+                free = [t for t in KEY_TAGS_UNORDERABLE if not any(k[0] == 'o' and k[1] == t for k in keys)]
+                if free and rng.random() < 0.8:
+                    add(self.key_obj(rng.choice(free), False))
                 else:
                     add(rng.choice(pool)())
             elif style == 'unord':
